@@ -157,6 +157,7 @@ func stripErr(q *qf) *qf {
 }
 
 type quantizer struct {
+	inlineAll bool // inline every in-module bool callee (for matcher algebra), not only those with loops
 	p       *Prog
 	nloops  int
 	elemVar map[ssa.Value]string // loaded range element -> bound variable
@@ -212,6 +213,8 @@ func (qz *quantizer) prov(v ssa.Value, d int) string {
 			return "*" + qz.prov(t.X, d+1)
 		}
 		return t.Op.String() + qz.prov(t.X, d+1)
+	case *ssa.Lookup:
+		return qz.prov(t.X, d+1) + "[" + qz.prov(t.Index, d+1) + "]"
 	case *ssa.Alloc:
 		// a struct literal: its field stores
 		if _, st := namedStruct(t.Type().Underlying().(*types.Pointer).Elem()); st != nil {
@@ -309,7 +312,7 @@ func (qz *quantizer) boolOf(v ssa.Value, phis map[*ssa.Phi]*qf) *qf {
 		}
 		if callee := t.Call.StaticCallee(); callee != nil && qz.p.InModule(callee) && qz.depth < 3 {
 			// inline the callee's own formula when it contains loops (quantifiers); otherwise an atom
-			if hasLoop(callee) {
+			if hasLoop(callee) || (qz.inlineAll && isBoolType(t.Type())) {
 				qz.depth++
 				sub := qz.funcFormulaWith(callee, 0, t.Call.Args)
 				qz.depth--
